@@ -482,6 +482,20 @@ def run(only=None):
         hist.poisoned_histories(s, funcs, bad_args, probes)
         s.declared = None
         hist.kept_results(s, "generate", [({"message": m_.hex()}, (lambda m_=m_: RS.generate(m_, MASK_VOICE_LC))) for m_ in msgs], obs=lambda r: bytes(r).hex())
+        # the caller holds message / word / mask in ONE bytearray each, overwritten in place between calls
+        rms = [env.det_bytes("c11-reuse", 9)]
+        for pos in (0, 8, 4):
+            rms.append(rms[-1][:pos] + bytes([rms[-1][pos] ^ 0x01]) + rms[-1][pos + 1:])
+        rms += [rms[0][:8] + bytes([i]) for i in range(6)] + [rms[0]]
+        rws = [m_ + xor3(bytes(gf256.parity(m_)), MASK_VOICE_LC) for m_ in rms]
+        rws_bad = [w_ if i % 2 == 0 else bytes([w_[0] ^ 0x10]) + w_[1:] for i, w_ in enumerate(rws)]
+        hist.reused_buffer(s, "rs", [
+            ("generate", (lambda b: bytes(RS.generate(b, MASK_VOICE_LC))), [bytearray(m_) for m_ in rms], list(rws)),
+            ("generate_default_mask", (lambda b: bytes(RS.generate(b))), [bytearray(m_) for m_ in rms], None),
+            ("check", (lambda b: RS.check(b, MASK_VOICE_LC)), [bytearray(w_) for w_ in rws_bad], [i % 2 == 0 for i in range(len(rws_bad))]),
+            ("mask_in_reused_buffer", (lambda b: bytes(RS.generate(rms[0], b))), [bytearray(x) for x in (MASK_NONE, MASK_VOICE_LC, MASK_TERMINATOR, b"\x01\x02\x03", MASK_NONE)],
+             [rms[0] + xor3(bytes(gf256.parity(rms[0])), x) for x in (MASK_NONE, MASK_VOICE_LC, MASK_TERMINATOR, b"\x01\x02\x03", MASK_NONE)]),
+        ], obs=lambda r: r.hex() if isinstance(r, bytes) else repr(r))
         hist.long_history(s, [RS, _mrs], probes, always=thorough)
         hist.picklable_entry_points(s, {"generate": RS.generate, "check": RS.check, "log_multiply": RS.log_multiply, "xor_bytes": RS.xor_bytes})
         hist.many_distinct_inputs(s, [RS, _mrs], [
